@@ -28,6 +28,7 @@ pa/conn.go on every run (`Gotlcp.Src.pa`, over a scripted transport) and `Gotlcp
 -/
 import Gotlcp.Lemmas.PA
 import Gotlcp.Lemmas.PARetry
+import Gotlcp.Lemmas.PAListen
 import Gotlcp.Lemmas.Locks
 import Gotlcp.Model.PAFacts
 import Gotlcp.Model.PALock
@@ -504,6 +505,179 @@ w := c.wrapped; c.lock.Unlock(); w.Close() / c.Conn.Close()`) never returns: the
 waiting for exactly that call -/
 example : unblockerReturns Facts.pa.swProgs
     [("Close", [(0, 0), (1, 0), (12, 0), (8, 0)])] "Read" evTransportRead "Close" = false := by decide
+
+/-! ### the listener in front of several peers
+
+`Model.PAListen`: one accept loop, blocking transports, time in ticks (within a tick everything happens that can
+happen without further input from a peer).  A peer is the tick its connection is established and its acts (send a
+chunk / disconnect, each after a gap); every list of peers is a schedule: silent peers, slow peers, first records
+split over time, early disconnects, in every order. -/
+
+/-- what `listener.Accept` does, as extracted: the inner listener's `Accept` and nothing else on the way — no
+transport read, no lock, no call into a stack on the accepted connection before it is returned (the constructor
+call is inlined by the extractor; `go` statements are not part of the program); the returned object is the
+constructor's over the raw connection.  Hence the model's accept loop does not peek. -/
+theorem C20_facts_listener :
+    Facts.pa.acceptProg = [(20, 0)] ∧ Facts.pa.acceptWrapsRaw = true ∧ factsAcceptPeeks = false := by decide
+
+/-- **Connections are independent.**  For every schedule of peers, every configuration shape and every read-buffer
+size: the outcome of connection `i` — the tick `Accept` returns it, the tick and the answer of the first call on
+it, the bytes the serving stack reads — is `solo` of peer `i` and its arrival tick: a function that does not
+mention any other peer.  In particular a peer that stays silent, sends slowly or never completes its first record
+delays nobody. -/
+theorem C20_listener_independent (cfg : Cfg) (rb : Nat) (peers : List Peer) :
+    listen factsP cfg factsAcceptPeeks rb peers =
+      (arrivals 0 peers).map (fun ap => solo factsP cfg rb ap.1 ap.2) := by
+  rw [C20_facts_listener.2.2]
+  exact listenRun_solo factsP cfg rb peers 0 0 (Nat.le_refl 0)
+
+/-- the same, pointwise: two schedules in which connection `i` arrives at the same tick with the same acts give
+it the same outcome, whatever else differs -/
+theorem C20_listener_independent_at (cfg : Cfg) (rb : Nat) (peers peers' : List Peer) (i j : Nat)
+    (h : (arrivals 0 peers)[i]? = (arrivals 0 peers')[j]?) :
+    (listen factsP cfg factsAcceptPeeks rb peers)[i]? = (listen factsP cfg factsAcceptPeeks rb peers')[j]? := by
+  rw [C20_listener_independent, C20_listener_independent, List.getElem?_map, List.getElem?_map, h]
+
+/-- **`Accept` consumes nothing.**  The object the application gets for a peer is a fresh detector over the raw
+connection: no header bytes held, everything the peer sends still pending in the transport; and it gets it the
+tick the peer connects — also for a peer that never sends a byte, so the application has a connection to put a
+deadline on or to close. -/
+theorem C20_accept_consumes_nothing (cfg : Cfg) (rb a : Nat) (p : Peer) :
+    handed factsP cfg factsAcceptPeeks p.acts = fresh (script p.acts) ∧
+    (handed factsP cfg factsAcceptPeeks p.acts).p.hdr = [] ∧
+    pending (handed factsP cfg factsAcceptPeeks p.acts).p.evs = stream p.acts ∧
+    (solo factsP cfg rb a p).acc = some a := by
+  rw [C20_facts_listener.2.2]
+  refine ⟨rfl, rfl, pending_script p.acts, ?_⟩
+  unfold solo serveConn
+  simp only []
+  split <;> rfl
+
+theorem call_pub_one (cfg : Cfg) (evs : List Ev) :
+    (calls factsP cfg 1 (pub evs)).1 = [(call factsP cfg (pub evs)).1] := by
+  simp [calls]
+
+/-- **Every peer is served on its own clock.**  For connection `i` arriving at tick `a` (all of it about `solo`,
+i.e. by `C20_listener_independent` about the listener in front of ANY other peers):
+  * the peer sends a complete first record header (five bytes, in whatever pieces, over whatever time): the first
+    call on its connection returns at the tick `r` its fifth byte is sent (`readyAt`, read off its own acts), with
+    the documented verdict for ITS first record's major version byte; when a stack serves it, that stack reads
+    exactly the peer's stream from its first byte;
+  * the peer goes away before five bytes: the first call returns an I/O error the tick it goes away — not a hang;
+  * the peer stays silent: the call is parked, but the application holds the connection (accepted at `a`). -/
+theorem C20_listener_serves (cfg : Cfg) (rb a : Nat) (p : Peer) :
+    (5 ≤ (stream p.acts).length →
+      ∃ r v, readyAt 5 a p.acts = some r ∧ a ≤ r ∧
+        Spec.PA.routeOfStream cfg.tlcp cfg.tls (stream p.acts) = some v ∧
+        (solo factsP cfg rb a p).dec = some (r, ofSpec v) ∧
+        (1 ≤ rb → (ofSpec v).served = true → (solo factsP cfg rb a p).got = stream p.acts)) ∧
+    ((stream p.acts).length < 5 → ∀ r, readyAt 5 a p.acts = some r →
+      ∃ e, (solo factsP cfg rb a p).dec = some (r, .io e)) ∧
+    (readyAt 5 a p.acts = none →
+      (solo factsP cfg rb a p).dec = none ∧ (solo factsP cfg rb a p).acc = some a) := by
+  have hhl : factsP.headerLen = 5 := by decide
+  have hres : factsP.resumable = true := by decide
+  have hrd : factsP.retriesDetect = true := C20_facts_public.2.2.2.2
+  have hcall : call factsP cfg (pub (script p.acts)) =
+      ((detect factsP cfg (fresh (script p.acts))).1,
+        { pub (script p.acts) with c := (detect factsP cfg (fresh (script p.acts))).2 }) := by
+    simp [call, hrd, pub]
+  have hsolo : ∀ r, readyAt 5 a p.acts = some r → a ≤ r →
+      (solo factsP cfg rb a p).dec = some (r, (call factsP cfg (pub (script p.acts))).1) ∧
+      (solo factsP cfg rb a p).got =
+        (if (call factsP cfg (pub (script p.acts))).1.served then
+          delivered (reads (call factsP cfg (pub (script p.acts))).2.c.p
+            (drainReads (call factsP cfg (pub (script p.acts))).2.c.p rb)).1 else []) := by
+    intro r hr har
+    have hm : max a r = r := by omega
+    unfold solo serveConn
+    simp only [hhl, hr, hm]
+    exact ⟨rfl, rfl⟩
+  refine ⟨?_, ?_, ?_⟩
+  · intro hfull
+    obtain ⟨r, hr, har⟩ := readyAt_of_stream p.acts 5 a hfull
+    obtain ⟨hdec, hgot⟩ := hsolo r hr har
+    have hfull' : 5 ≤ (pending (script p.acts)).length := by rw [pending_script]; exact hfull
+    obtain ⟨_, _, h3⟩ := C20_public_retry_routes (script p.acts) cfg 1 hfull'
+    obtain ⟨x, hx, v, hv, hxv⟩ := h3 (by rw [nTimeouts_script]; omega)
+    rw [call_pub_one] at hx
+    simp only [List.mem_singleton] at hx
+    rw [pending_script] at hv
+    refine ⟨r, v, hr, har, hv, ?_, ?_⟩
+    · rw [hdec, ← hx, hxv]
+    · intro hrb hserved
+      rw [hgot, ← hx, hxv, hserved]
+      simp only [↓reduceIte]
+      -- the state the stack reads from: replayed header ++ pending = the peer's stream
+      have hs : HOK factsP (fresh (script p.acts)).p := Or.inl (by simp [fresh, isFresh])
+      obtain ⟨_, hstep⟩ := detect_step factsP cfg (fresh (script p.acts)) factsP_valid hres rfl hs
+      have hacc : accounted factsP (fresh (script p.acts)).p = stream p.acts := by
+        simp [fresh, accounted, isFresh, pending_script]
+      have hd1 : (detect factsP cfg (fresh (script p.acts))).1 = ofSpec v := by
+        have := congrArg Prod.fst hcall
+        simp only [] at this
+        rw [← this, ← hx, hxv]
+      have hstream : (detect factsP cfg (fresh (script p.acts))).2.p.hdr ++
+          pending (detect factsP cfg (fresh (script p.acts))).2.p.evs = stream p.acts := by
+        rcases hstep with ⟨e, he, _⟩ | ⟨mj, _, _, _, _, hst⟩
+        · rw [hd1] at he; cases v <;> simp [ofSpec] at he
+        · rw [← hacc]; exact hst
+      have hst2 : (call factsP cfg (pub (script p.acts))).2.c.p =
+          (detect factsP cfg (fresh (script p.acts))).2.p := by rw [hcall]
+      rw [hst2]
+      generalize (detect factsP cfg (fresh (script p.acts))).2.p = s at hstream
+      have hpos : ∀ n ∈ drainReads s rb, 1 ≤ n := by
+        intro n hn
+        simp only [drainReads, List.mem_replicate] at hn
+        omega
+      have hlen : Lemmas.PA.measure s ≤ (drainReads s rb).length := by
+        simp [drainReads, Lemmas.PA.measure, evCount_eq]
+      obtain ⟨hh, he⟩ := reads_progress (drainReads s rb) s hpos hlen
+      have hp := reads_pending (drainReads s rb) s
+      rw [hh, he] at hp
+      rw [← hstream, ← hp]
+      simp [pending]
+  · intro hshort r hr
+    have har := readyAt_ge p.acts 5 a r hr
+    obtain ⟨hdec, _⟩ := hsolo r hr har
+    obtain ⟨_, _, h3⟩ := C20_public_sound (script p.acts) cfg 1
+    have hx := h3 (call factsP cfg (pub (script p.acts))).1 (by rw [call_pub_one]; simp)
+    rcases hx with ⟨e, he⟩ | ⟨v, hv, _⟩
+    · exact ⟨e, by rw [hdec, he]⟩
+    · rw [pending_script] at hv
+      unfold Spec.PA.routeOfStream Spec.PA.recordHeaderLen at hv
+      simp [hshort] at hv
+  · intro hnone
+    unfold solo serveConn
+    simp [hhl, hnone]
+
+/-- non-vacuity, the schedule of the demonstration: a silent peer connects first; then a peer whose first record
+arrives split over three ticks; then a peer that goes away after three bytes; then a TLS peer.  Everybody is
+accepted the tick it arrives; the second is routed at tick 3 (its fifth byte), the third gets its error at tick 2,
+the fourth is routed at tick 2; the silent one is parked. -/
+def demoPeers : List Peer :=
+  [⟨0, []⟩,
+   ⟨1, [(0, .send [0x16, 1]), (1, .send [1, 0]), (1, .send [6, 0xa0])]⟩,
+   ⟨0, [(0, .send [0x16, 3, 3]), (1, .close)]⟩,
+   ⟨1, [(0, .send [0x16, 3, 3, 0, 2, 0xb0, 0xb1])]⟩]
+
+example : listen factsP ⟨true, true⟩ factsAcceptPeeks 4 demoPeers =
+    [{ acc := some 0 }, { acc := some 1, dec := some (3, .tlcp), got := [0x16, 1, 1, 0, 6, 0xa0] },
+     { acc := some 1, dec := some (2, .io .unexpectedEOF) },
+     { acc := some 2, dec := some (2, .tls), got := [0x16, 3, 3, 0, 2, 0xb0, 0xb1] }] := by decide
+
+/-- the negation: when `Accept` itself peeks the header (`conn.detect()` before returning, the error dropped), the
+silent peer at the head of the queue parks the accept loop for good: nobody behind it is ever accepted, although
+two of them sent complete first records and one went away -/
+example : listen factsP ⟨true, true⟩ true 4 demoPeers = [{}, {}, {}, {}] := by decide
+
+/-- … and a slow peer delays everybody behind it until ITS fifth byte: the TLS peer, complete at tick 2, is
+accepted and routed at tick 3 only; the error of the peer that went away changes from `unexpected EOF` to `EOF`
+(the peek inside `Accept` has eaten the first report) -/
+example : listen factsP ⟨true, true⟩ true 4 demoPeers.tail =
+    [{ acc := some 3, dec := some (3, .tlcp), got := [0x16, 1, 1, 0, 6, 0xa0] },
+     { acc := some 3, dec := some (3, .io .eof) },
+     { acc := some 3, dec := some (3, .tls), got := [0x16, 3, 3, 0, 2, 0xb0, 0xb1] }] := by decide
 
 /-! ### the finding F21 (repaired by `fixes/F21.patch`)
 
